@@ -28,6 +28,7 @@ const (
 	defaultCacheType          = "local"
 	defaultRemoteCacheAddress = "localhost:50100"
 	defaultBufferSize         = 1000
+	maxBufferSize             = 1000000
 	defaultStoreType          = "badgerdb"
 	defaultCacheDir           = "./cached/caches"
 	defaultWriteWorkers       = 16
